@@ -11,6 +11,7 @@
 package main
 
 import (
+	"context"
 	"fmt"
 	"os"
 	"sort"
@@ -28,6 +29,9 @@ type caseIn struct {
 	Sched []string   `json:"sched"`
 	// slow store: commits are held for longer than the source teardown budget (10 s) during the stop
 	Slow bool `json:"slow,omitempty"`
+	// c12: no process restart between the force stop and the next start: the pipeline is started again
+	// through the same services, i.e. the very connector instances the force-stopped run used
+	SameProc bool `json:"same_proc,omitempty"`
 }
 
 type caseObs struct {
@@ -52,6 +56,8 @@ type caseObs struct {
 //	stop             StopAndWait (not awaited: the schedule goes on)
 //	stopd:<ms>       StopAndWait with a context deadline of ms (awaited; logged as its own call)
 //	force            Stop(force)
+//	shutdown         the engine's graceful shutdown as conduit's runtime performs it: StopAll with the shutdown
+//	                 reason, Wait, persister Wait (not awaited: the schedule goes on); judged like "stop"
 //	stopall          graceful shutdown of the engine: StopAll (not awaited)
 //	stopallforce     forced shutdown: v2 StopAll(force=true); v1 StopAll then Stop(force)
 //	w                wait until the log is quiet
@@ -113,10 +119,14 @@ func play(c caseIn) caseObs {
 		case "free":
 			w.ReleaseCommits()
 			heldAtEnd = false
-		case "stop":
+		case "stop", "shutdown":
 			if !stopped && !forced {
 				commitsAtStop = countCommits(w.Events())
-				_, stopDone = sys.Call("stopwait")
+				name := "stopwait"
+				if f[0] == "shutdown" {
+					name = "shutdown"
+				}
+				_, stopDone = sys.Call(name)
 				stopped = true
 			}
 		case "force", "stopallforce":
@@ -238,11 +248,21 @@ func finishForce(sys *stopx.Sys, c caseIn, o *caseObs, stopDone, forceDone, allD
 	// any automatic restart would happen within the recovery back-off (1..5 ms)
 	time.Sleep(25 * time.Millisecond)
 	w.Log(stopx.Ev{K: "watched", X: sys.Status()})
-	// a process restart: fresh services on the same store; Init must not bring the pipeline back
-	if err := sys.Reboot(); err != nil {
-		o.Note = "reboot: " + err.Error()
+	if c.SameProc {
+		// no process restart: the next start goes through the services - and the connector instances -
+		// of the run that was force-stopped. The persister writes out what it still holds first (as it
+		// does on its own within its debounce delay), so that the resume position is the durable one.
+		w.Release()
+		sys.Persister.Flush(context.Background())
+		sys.Persister.WaitPendingWrites()
+		w.Log(stopx.Ev{K: "sameproc"})
+	} else {
+		// a process restart: fresh services on the same store; Init must not bring the pipeline back
+		if err := sys.Reboot(); err != nil {
+			o.Note = "reboot: " + err.Error()
+		}
+		w.Release()
 	}
-	w.Release()
 	w.Settle(300*time.Microsecond, 20*time.Millisecond)
 
 	// next run
@@ -412,6 +432,8 @@ func evsCoq(evs []stopx.Ev) string {
 			out = append(out, "ERestart "+snapCoq(e.Snap))
 		case "panic":
 			out = append(out, "EPanic")
+		case "sameproc":
+			out = append(out, "ESameProc")
 		}
 	}
 	return hx.List(out)
@@ -427,6 +449,8 @@ func callCoq(x string) string {
 		return "KForce"
 	case "wait":
 		return "KWait"
+	case "shutdown":
+		return "KShutdown"
 	}
 	return "KStop"
 }
@@ -538,7 +562,7 @@ func genBase(r *hx.Rand, t stopx.Topo, n int, storeGate bool) []string {
 // directed: the plugin parks the consumption of ack k while it is in flight; record k+1 is handled and
 // acked by the engine; the stop arrives; only then the plugin consumes ack k. The final ack (k+1) is
 // enqueued by Teardown's forced flush while the delivery goroutine is still busy with ack k.
-func directedAckInFlight(t stopx.Topo, k int) []string {
+func directedAckInFlight(t stopx.Topo, k int, stop string) []string {
 	oks := func(n int) []string {
 		var out []string
 		for d := 1; d <= t.Dests; d++ {
@@ -559,8 +583,40 @@ func directedAckInFlight(t stopx.Topo, k int) []string {
 	sched = append(sched, oks(1)...)
 	sched = append(sched, "z:70", "e:s1:1") // ack k is durable and in flight to the parked plugin
 	sched = append(sched, oks(1)...)
-	sched = append(sched, "w", "stop!", "wc", "z:10", "ar:s1")
+	sched = append(sched, "w", stop+"!", "wc", "z:10", "ar:s1")
 	return sched
+}
+
+// directedStopInFlight: every source handed out k records, every destination confirmed the first j of
+// what it got, the rest is in flight at destinations that do not answer; then the graceful stop arrives
+// (stop = "stop": by the user, reason nil; "shutdown": by the engine, with the shutdown reason) and
+// only afterwards the destinations answer. Nothing the stop does may depend on its reason.
+func directedStopInFlight(t stopx.Topo, k, j int, stop string) []string {
+	sched := []string{"start"}
+	for s := 1; s <= t.Sources; s++ {
+		sched = append(sched, fmt.Sprintf("e:s%d:%d", s, k))
+	}
+	if j > 0 {
+		for d := 1; d <= t.Dests; d++ {
+			sched = append(sched, fmt.Sprintf("ok:d%d:%d", d, j))
+		}
+	}
+	return append(sched, "w", stop+"!", "w")
+}
+
+// directedForceRestart (c12): records in flight at destinations that do not answer, force stop, and -
+// by the harness's epilogue - the next start; strict = the plugins honour the (cancelled) context of
+// the Stop / Teardown calls that end the run, same = the next start happens in the same process.
+func directedForceRestart(e string, t stopx.Topo, strict, same bool, k, j int) caseIn {
+	t.Engine = e
+	t.StrictCtx = strict
+	sched := []string{"start", fmt.Sprintf("e:s1:%d", k)}
+	if j > 0 {
+		for d := 1; d <= t.Dests; d++ {
+			sched = append(sched, fmt.Sprintf("ok:d%d:%d", d, j))
+		}
+	}
+	return caseIn{Prop: "c12", Topo: t, SameProc: same, Sched: append(sched, "w", "force")}
 }
 
 // directedShutdown: records are in flight at destinations that do not answer; the engine is shut
@@ -614,7 +670,14 @@ func emitCorpus(w *hx.Writer, o hx.Opts, prop string) {
 			for k := 1; k <= 3; k++ {
 				t := directedTopos[(k-1)%len(directedTopos)]
 				t.Engine = e
-				emit(w, caseIn{Prop: prop, Topo: t, Sched: directedAckInFlight(t, k)})
+				emit(w, caseIn{Prop: prop, Topo: t, Sched: directedAckInFlight(t, k, []string{"stop", "shutdown"}[k%2])})
+			}
+		}
+		// the engine's shutdown (a stop with a reason) while records are in flight
+		for _, e := range []string{"v1", "v2"} {
+			for k, t := range directedTopos {
+				t.Engine = e
+				emit(w, caseIn{Prop: prop, Topo: t, Sched: directedStopInFlight(t, 2+k%2, k%2, "shutdown")})
 			}
 		}
 	}
@@ -646,6 +709,14 @@ func emitCorpus(w *hx.Writer, o hx.Opts, prop string) {
 		} {
 			c.Prop = prop
 			emit(w, c)
+		}
+		// plugins that honour the cancelled context of the calls that end a force-stopped run; the next
+		// start in the same process / after a process restart
+		for _, e := range []string{"v1", "v2"} {
+			emit(w, directedForceRestart(e, stopx.Topo{Sources: 1, Dests: 1}, true, true, 2, 1))
+			emit(w, directedForceRestart(e, stopx.Topo{Sources: 1, Dests: 2, Procs: 1}, true, true, 3, 0))
+			emit(w, directedForceRestart(e, stopx.Topo{Sources: 1, Dests: 1}, false, true, 2, 0))
+			emit(w, directedForceRestart(e, stopx.Topo{Sources: 2, Dests: 1}, true, false, 2, 1))
 		}
 	}
 }
@@ -693,12 +764,20 @@ func main() {
 					base = withStopAt(base, q, fmt.Sprintf("slow:s1:%d", r.Range(2000, 30000)))
 				}
 			}
+			// an independent stream for the choices added later (keeps the schedules above as they were)
+			r2 := root.Fork(0xC0612<<40 | uint64(o.Shard)<<32 | uint64(i))
+			if prop == "c12" {
+				t.StrictCtx = r2.Bool()
+			}
 			for p := 1; p <= len(base); p++ {
 				st := what
+				if prop == "c06" && r2.Chance(1, 3) {
+					st = "shutdown"
+				}
 				if r.Chance(1, 4) {
 					st += "!"
 				}
-				emit(w, caseIn{Prop: prop, Topo: t, Sched: withStopAt(base, p, st)})
+				emit(w, caseIn{Prop: prop, Topo: t, SameProc: prop == "c12" && r2.Bool(), Sched: withStopAt(base, p, st)})
 			}
 		}
 	default:
@@ -715,15 +794,34 @@ func main() {
 					Sched: directedTimedOutStop(r.Range(1, 3), r.Range(10, 40))})
 				continue
 			}
+			// an independent stream for the choices added later (keeps the schedules above as they were)
+			r2 := root.Fork(0xC0612<<40 | uint64(o.Shard)<<32 | uint64(i))
+			stopKind := what
+			if prop == "c06" && r2.Chance(1, 3) {
+				// the graceful stop is the engine's shutdown (a stop with a reason) instead of the user's
+				stopKind = "shutdown"
+			}
+			sameProc := false
+			if prop == "c12" {
+				t.StrictCtx = r2.Bool()
+				sameProc = r2.Bool()
+			}
 			if prop == "c06" && i%4 == 3 {
 				dt := directedTopos[r.Intn(len(directedTopos))]
 				dt.Engine = t.Engine
-				emit(w, caseIn{Prop: prop, Topo: dt, Sched: directedAckInFlight(dt, r.Range(1, 4))})
+				emit(w, caseIn{Prop: prop, Topo: dt, Sched: directedAckInFlight(dt, r.Range(1, 4), stopKind)})
+				continue
+			}
+			if prop == "c06" && i%8 == 2 {
+				dt := directedTopos[r2.Intn(len(directedTopos))]
+				dt.Engine = t.Engine
+				k := r2.Range(1, 4)
+				emit(w, caseIn{Prop: prop, Topo: dt, Sched: directedStopInFlight(dt, k, r2.Intn(k+1), stopKind)})
 				continue
 			}
 			base := genBase(r, t, r.Range(3, 16), prop == "c06")
 			p := r.Range(1, len(base))
-			st := what
+			st := stopKind
 			if r.Chance(1, 3) {
 				st += "!"
 			}
@@ -731,7 +829,8 @@ func main() {
 			if prop == "c12" && i%5 == 4 {
 				dt := directedTopos[r.Intn(len(directedTopos))]
 				dt.Engine = t.Engine
-				emit(w, caseIn{Prop: prop, Topo: dt, Sched: directedShutdown(r.Range(1, 3), r.Bool())})
+				dt.StrictCtx = t.StrictCtx
+				emit(w, caseIn{Prop: prop, Topo: dt, SameProc: sameProc, Sched: directedShutdown(r.Range(1, 3), r.Bool())})
 				continue
 			}
 			if prop == "c12" && r.Chance(1, 4) {
@@ -742,7 +841,7 @@ func main() {
 					sched = withStopAt(sched, q, fmt.Sprintf("slow:s1:%d", r.Range(2000, 30000)))
 				}
 			}
-			emit(w, caseIn{Prop: prop, Topo: t, Sched: sched})
+			emit(w, caseIn{Prop: prop, Topo: t, SameProc: sameProc, Sched: sched})
 		}
 	}
 	if err := w.Close("chk"); err != nil {
@@ -772,6 +871,12 @@ func caseFromJSON(m map[string]any, prop string) caseIn {
 		Workers: geti("workers"), DLQSize: geti("dlq_size"), DLQThr: geti("dlq_thr")}
 	if b, ok := tm["src_proc"].(bool); ok {
 		c.Topo.SrcProc = b
+	}
+	if b, ok := tm["strict_ctx"].(bool); ok {
+		c.Topo.StrictCtx = b
+	}
+	if b, ok := in["same_proc"].(bool); ok {
+		c.SameProc = b
 	}
 	if c.Topo.Sources < 1 || c.Topo.Dests < 1 {
 		panic("ill-formed topology")
